@@ -91,6 +91,14 @@ def blockAt? (d : Delims) (kwOpen kwClose : Str) (t : Str) : Option (Str × Bool
     | none => none
     | some (k, (rc, n2)) => some (rest.take k, ro, rc, n1 + k + n2)
 
+/-- `(?P<rsc>-?)CMT_E` at the head of `u` : (hyphen?, length) -/
+def shortCloseAt? (cmtE : Str) (u : Str) : Option (Bool × Nat) :=
+  match u with
+  | '-' :: u' => (match stripPrefix? cmtE u' with
+                  | some _ => some (true, 1 + cmtE.length)
+                  | none => (stripPrefix? cmtE u).map fun _ => (false, cmtE.length))
+  | _ => (stripPrefix? cmtE u).map fun _ => (false, cmtE.length)
+
 /-- does `t` start with an opening delimiter, and is it followed by a hyphen? (the content look-ahead) -/
 def openerAt? (d : Delims) (t : Str) : Option Bool :=
   match stripPrefix? d.tagS t with
@@ -129,12 +137,7 @@ def matchAt (d : Delims) (pos : Nat) (c : Char) (r : Str) : Match :=
       | none => none
       | some t1 =>
         -- `(?P<comment>.*?)(?P<rsc>-?)CMT_E`
-        match findFirst (fun u =>
-            match u with
-            | '-' :: u' => (match stripPrefix? d.cmtE u' with
-                            | some _ => some (true, 1 + d.cmtE.length)
-                            | none => (stripPrefix? d.cmtE u).map fun _ => (false, d.cmtE.length))
-            | _ => (stripPrefix? d.cmtE u).map fun _ => (false, d.cmtE.length)) t1 with
+        match findFirst (shortCloseAt? d.cmtE) t1 with
         | none => none
         | some (k, (rs, n2)) => some (t1.take k, rs, d.cmtS.length + k + n2)
   match shortc with
